@@ -1562,6 +1562,12 @@ class Engine(object):
             return HostMethod(obj, attr)
         # host objects (modules, argparse namespaces, ...)
         if type(obj).__module__.startswith("contracts."):
+            if attr == "__dict__" or (hasattr(obj, attr) and not callable(getattr(obj, attr))):
+                return getattr(obj, attr)
+            if attr in getattr(obj, "__dict__", {}):
+                return obj.__dict__[attr]
+            if type(obj).__name__ == "Namespace":
+                raise PyRaise(AttributeError, (attr,))
             return HostMethod(obj, attr)
         try:
             return getattr(obj, attr)
